@@ -51,6 +51,8 @@ def sh(cmd, cwd=None, timeout=None):
 BUILD_CFGS = {
     # name: (cargo args, binary path)
     'default': (['--release'], 'target/release/slacharness'),
+    # unoptimised: library calls are not rewritten by the compiler (LLVM turns powf(x, 2.0) with a known exponent into x * x in optimised builds)
+    'debug': ([], 'target/debug/slacharness'),
     'checked': (['--profile', 'relchecked'], 'target/relchecked/slacharness'),
     'zero': (['--release', '--features', 'zero_based_strings', '--target-dir', 'target-zero'], 'target-zero/release/slacharness'),
     'zerochecked': (['--profile', 'relchecked', '--features', 'zero_based_strings', '--target-dir', 'target-zero'], 'target-zero/relchecked/slacharness'),
